@@ -141,6 +141,8 @@ class Enc:
         self.widths = widths
         self.weird_empty = weird_empty
         self.special = special
+        self.decisions = []      # (is_regular, size) per list level, in encoding order
+        self.replay = None       # when set: list of decisions to follow (canonical re-encoding keeps the type)
         self.stats = {}
 
     def count(self, k):
@@ -247,7 +249,11 @@ def encode_list(enc, it, lists, chars=None):
     kinds = list(enc.list_kinds)
     sizes = set(len(l) for l in lists)
     regular_ok = len(sizes) <= 1 and 'reg' in kinds
-    if enc.canonical:
+    forced_size = None
+    if enc.replay is not None:
+        isreg, forced_size = enc.replay.pop(0)
+        kind = 'reg' if isreg else 'lo'
+    elif enc.canonical:
         kind = 'lo'
     else:
         if regular_ok and rng.random() < 0.4:
@@ -258,10 +264,12 @@ def encode_list(enc, it, lists, chars=None):
     w = 'i64' if enc.canonical else rng.choice(enc.widths)
     enc.count(kind)
     if kind == 'reg':
-        size = sizes.pop() if sizes else rng.choice([0, 1, 2])
+        size = forced_size if forced_size is not None else (sizes.pop() if sizes else rng.choice([0, 1, 2]))
+        enc.decisions.append((True, size))
         flat = [x for l in lists for x in l]
         extra = jv(max(size - 1, 0))[:max(size - 1, 0)] if size > 0 else jv()
         return ['reg', size, n, content(flat + extra)]
+    enc.decisions.append((False, None))
     if kind == 'lo':
         pre = jv()
         flat = list(pre)
@@ -413,6 +421,7 @@ def gen_array(rng, depth=3, toplen=None, canonical_too=True, enc_kw=None, type_k
     out = dict(type=t, vals=vals, layout=lay, stats=enc.stats)
     if canonical_too:
         cenc = Enc(rng, canonical=True)
+        cenc.replay = [d for d in enc.decisions]
         out['canon'] = encode(cenc, t, vals)
     return out
 
